@@ -81,15 +81,17 @@ def check(facts, rep, tier, cfg):
     cells = ("cell/Finish/BindRequested", "cell/Reset/BindRequested", "cell/Acknowledge/BindRequested", "cell/Bind/disabled",
              "cell/Bind/enabled", "cell/Bind/winding-down",
              # stream and bind operations share one id space: a Connect on an id with a pending bind must not replace the slot
-             "cell/Connect/in-use", "cell/Push/BindRequested")
+             "cell/Connect/in-use", "cell/Push/BindRequested",
+             # stream traffic on the id of a pending bind (a late Push after id reuse) is answered with Reset and leaves the slot alone
+             "cell/Push/no-taker", "cell/Push/delivered-or-closed")
     rep.rule("C15.R2", "responder: Bind rows of the reaction table; BindRequest carries the frame's id and payload")
     for i in sub.instances:
         if i["key"] in cells:
-            rep.ok("C15.R1" if "BindRequested" in i["key"] else "C15.R2", i["key"], i["where"], i["detail"])
+            rep.ok("C15.R1" if ("BindRequested" in i["key"] or "Push" in i["key"]) else "C15.R2", i["key"], i["where"], i["detail"])
     for v in sub.violations:
         k = v["key"].split("/", 1)[1]
         if k in cells or (k.startswith("unmatched/") and "Bind" in k):
-            rep.bad("C15.R1" if "BindRequested" in k else "C15.R2", k, v["where"], v["msg"])
+            rep.bad("C15.R1" if ("BindRequested" in k or "Push" in k) else "C15.R2", k, v["where"], v["msg"])
     sub8 = type(rep)(rep.prop, rep.tier, rep.config)
     rules_c08.check(facts, sub8, tier, cfg)
     for i in sub8.instances:
